@@ -41,6 +41,9 @@ type BetaDistribution struct {
 /* -------------------------------------------------------------------------- */
 
 func NewBetaDistribution(alpha, beta Scalar, logScale bool) (*BetaDistribution, error) {
+  if math.IsNaN(alpha.GetFloat64()) || math.IsNaN(beta.GetFloat64()) {
+    return nil, fmt.Errorf("invalid parameters")
+  }
   if alpha.GetFloat64() <= 0.0 || beta.GetFloat64() <= 0.0 {
     return nil, fmt.Errorf("invalid parameters")
   }
